@@ -18,6 +18,10 @@ type Case struct {
 	Nodes   int        `json:"nodes"`
 	Clients int        `json:"clients"`
 	Steps   []sim.Step `json:"steps"`
+	// ManualGossip: broadcasts move only at gossip1 / gossipall steps; the cluster-wide state
+	// is judged after gossipall steps (and at the end, after a final gossipall) only, and
+	// deliveries are not judged (what a node forwards depends on what it has learned so far).
+	ManualGossip bool `json:"manual_gossip,omitempty"`
 }
 
 type failure struct {
@@ -31,6 +35,10 @@ func run(c Case) (f *failure, nontrivial bool) {
 		return &failure{err.Error(), true}, false
 	}
 	defer w.Close()
+	if c.ManualGossip {
+		w.Cl.AutoGossip = false
+		c.Steps = append(append([]sim.Step{}, c.Steps...), sim.Step{Op: "gossipall"})
+	}
 	hadSubs := map[int]bool{}
 	connectedAtStep := map[int]int{}
 	for i, st := range c.Steps {
@@ -64,6 +72,14 @@ func run(c Case) (f *failure, nontrivial bool) {
 			if s.EndCause == "timeout" && hadSubs[ci] {
 				nontrivial = true
 			}
+		}
+		if c.ManualGossip {
+			if st.Op == "gossipall" {
+				if m := w.CheckState(); m != "" {
+					return &failure{fmt.Sprintf("after step %d (all gossip delivered): %s", i, m), false}, nontrivial
+				}
+			}
+			continue
 		}
 		if m := w.CheckState(); m != "" {
 			return &failure{fmt.Sprintf("after step %d (%s c%d): %s", i, st.Op, st.C, m), false}, nontrivial
@@ -208,5 +224,37 @@ func TestNodeFailure(t *testing.T) {
 	rapid.Check(t, func(t *rapid.T) {
 		c := genCase(t, true)
 		check(t, c, "with-node-failure")
+	})
+}
+
+// TestGossipSchedules: 2-3 nodes, broadcasts delivered one by one in a generated order (or
+// not at all until the next deliver-everything point), node failure possible at any point.
+func TestGossipSchedules(t *testing.T) {
+	rapid.Check(t, func(t *rapid.T) {
+		base := genCase(t, rapid.IntRange(0, 4).Draw(t, "withNodeFailure") == 0)
+		if base.Nodes < 2 {
+			base.Nodes = 2
+		}
+		c := Case{Nodes: base.Nodes, Clients: base.Clients, ManualGossip: true}
+		seen := map[string]bool{}
+		for _, st := range base.Steps {
+			if st.Op == "connect" {
+				if seen[st.ClientID] {
+					st.ClientID = fmt.Sprintf("%s-x%d", st.ClientID, st.C) // takeover needs the proviso of C12: not here
+				}
+				seen[st.ClientID] = true
+			}
+			c.Steps = append(c.Steps, st)
+			switch x := rapid.IntRange(0, 9).Draw(t, "gossip"); {
+			case x < 4:
+				k := rapid.IntRange(1, 3).Draw(t, "k")
+				for j := 0; j < k; j++ {
+					c.Steps = append(c.Steps, sim.Step{Op: "gossip1", C: rapid.IntRange(0, 60).Draw(t, "g"), Node: rapid.IntRange(0, c.Nodes-1).Draw(t, "to")})
+				}
+			case x < 6:
+				c.Steps = append(c.Steps, sim.Step{Op: "gossipall"})
+			}
+		}
+		check(t, c, "manual-gossip")
 	})
 }
